@@ -200,7 +200,7 @@ def handle : Handler := fun fn args =>
       let r ← regOfJson (← argAt args 0)
       let attrs ← forestOfJson nvarOfJson (← argAt args 1)
       let upd ← forestOfJson lboxOfJson (← argAt args 2)
-      let s : ToNNX V := { attrs, reg := r, rngs := ⟨[]⟩ }
+      let s : ToNNX V := { attrs, reg := r, rngs := ⟨[], 0⟩ }
       .ok (res (fun (s' : ToNNX V) =>
           Json.mkObj [("reg", regToJson s'.reg), ("attrs", forestToJson nvarToJson s'.attrs)])
         (if fn = "absorb" then s.absorb upd else s.absorbOrig upd))
@@ -260,7 +260,7 @@ def handle : Handler := fun fn args =>
       let (outs, _) := (List.range n).foldl (fun (acc : List Json × Rngs) i =>
         let (ks, r') := acc.2.draw
         let ks := if rename && i == 0 then renameDefault ks else ks
-        (acc.1 ++ [keysToJson ks], r')) ([], ⟨streams⟩)
+        (acc.1 ++ [keysToJson ks], r')) ([], ⟨streams, 0⟩)
       .ok (.arr outs.toArray)
   | _ => .error "bad-op"
 
